@@ -209,20 +209,38 @@ def _plain_generator_cm(fn):
         return None
     body = _strip_doc(fn.body)
     ys = [i for i, b in enumerate(body) if isinstance(b, ast.Expr) and isinstance(b.value, ast.Yield)]
-    if len(ys) != 1:
+    trynode = None
+    if not ys:
+        # `<pre>; try: yield [v] except .. / finally: ..; <post>`: the try is put around the with-body
+        ts = [i for i, b in enumerate(body) if isinstance(b, ast.Try) and len(b.body) == 1 and isinstance(b.body[0], ast.Expr) and isinstance(b.body[0].value, ast.Yield) and not b.orelse]
+        if len(ts) != 1:
+            return None
+        trynode = body[ts[0]]
+        ystmt = trynode.body[0]
+        pre, post = body[: ts[0]], body[ts[0] + 1 :]
+        if any(isinstance(n, (ast.Yield, ast.YieldFrom, ast.Return)) for h in trynode.handlers for b in h.body for n in ast.walk(b)) or any(isinstance(n, (ast.Yield, ast.YieldFrom, ast.Return)) for b in trynode.finalbody for n in ast.walk(b)):
+            return None
+        if not pre and not post and ystmt.value.value is None:
+            return None  # the plain try form is _generator_cm's
+    elif len(ys) == 1:
+        ystmt = body[ys[0]]
+        pre, post = body[: ys[0]], body[ys[0] + 1 :]
+    else:
         return None
-    pre, post = body[: ys[0]], body[ys[0] + 1 :]
-    yv = body[ys[0]].value.value
+    yv = ystmt.value.value
     if yv is not None and any(isinstance(n, (ast.Yield, ast.YieldFrom, ast.Lambda, ast.Await)) for n in ast.walk(yv)):
+        return None
+    extra_ = (list(trynode.finalbody) + [b for h in trynode.handlers for b in h.body]) if trynode is not None else []
+    if any(isinstance(n, (ast.FunctionDef, ast.AsyncFunctionDef, ast.Lambda, ast.Global, ast.Nonlocal)) for b in extra_ for n in ast.walk(b)):
         return None
     for b in pre + post:
         if any(isinstance(n, (ast.Yield, ast.YieldFrom, ast.Return, ast.FunctionDef, ast.AsyncFunctionDef, ast.Lambda, ast.Global, ast.Nonlocal)) for n in ast.walk(b)):
             return None
     # parameters are not re-bound
     params = {x.arg for x in fn.args.posonlyargs + fn.args.args + fn.args.kwonlyargs}
-    if any(isinstance(n, ast.Name) and n.id in params and isinstance(n.ctx, (ast.Store, ast.Del)) for b in pre + post for n in ast.walk(b)):
+    if any(isinstance(n, ast.Name) and n.id in params and isinstance(n.ctx, (ast.Store, ast.Del)) for b in pre + post + extra_ for n in ast.walk(b)):
         return None
-    return pre, post, yv
+    return pre, post, yv, trynode
 
 
 def _pure_arg(e: ast.expr) -> bool:
@@ -940,7 +958,7 @@ class _CMDesugar(ast.NodeTransformer):
     def _plain(self, node, copy):
         call = node.items[0].context_expr
         var = node.items[0].optional_vars
-        fn, (pre, post, yv) = self.plain[call.func.id]
+        fn, (pre, post, yv, trynode) = self.plain[call.func.id]
         if isinstance(node, ast.AsyncWith) != isinstance(fn, ast.AsyncFunctionDef):
             return None
         if var is not None and yv is None:
@@ -953,7 +971,9 @@ class _CMDesugar(ast.NodeTransformer):
         if any(isinstance(n, ast.Name) and n.id in arg_names and isinstance(n.ctx, (ast.Store, ast.Del)) for b in node.body for n in ast.walk(b)):
             return None
         self.count += 1
-        own = {n.id for b in pre + post for n in ast.walk(b) if isinstance(n, ast.Name) and isinstance(n.ctx, ast.Store)}
+        tparts = (list(trynode.finalbody) + [b for h in trynode.handlers for b in h.body]) if trynode is not None else []
+        own = {n.id for b in pre + post + tparts for n in ast.walk(b) if isinstance(n, ast.Name) and isinstance(n.ctx, ast.Store)}
+        own |= {h.name for h in (trynode.handlers if trynode is not None else []) if h.name}
         own |= {n.id for g_ in ([yv] if yv is not None else []) for n in ast.walk(g_) if isinstance(n, ast.Name) and isinstance(n.ctx, ast.Store)}
         ren = {nm: f"__cm{self.count}p_{nm}" for nm in own}
         sub = _Subst(amap)
@@ -965,7 +985,19 @@ class _CMDesugar(ast.NodeTransformer):
         if yv is not None:
             v2 = tr(yv)
             mid = [ast.copy_location(ast.Assign(targets=[copy.deepcopy(var)], value=v2) if var is not None else ast.Expr(value=v2), node)]
-        out = [tr(b) for b in pre] + mid + list(node.body) + [tr(b) for b in post]
+        inner = mid + list(node.body)
+        if trynode is not None:
+            handlers = []
+            for h in trynode.handlers:
+                h2 = copy.deepcopy(h)
+                if h2.type is not None:
+                    h2.type = tr(h2.type)
+                if h2.name and h2.name in ren:
+                    h2.name = ren[h2.name]
+                h2.body = [tr(b) for b in h.body]
+                handlers.append(h2)
+            inner = [ast.copy_location(ast.Try(body=inner, handlers=handlers, orelse=[], finalbody=[tr(b) for b in trynode.finalbody]), node)]
+        out = [tr(b) for b in pre] + inner + [tr(b) for b in post]
         for b in out:
             ast.fix_missing_locations(b)
         return out
